@@ -109,6 +109,10 @@ class _Marshaller:
         try:
             self.dispatch[type(x)](self, x)
         except KeyError:
+            if hasattr(x, "co_exceptiontable") and hasattr(x, "co_qualname"):
+                # A 3.11+ code object has fields (qualified name, exception table,
+                # localsplus) that the 3.0-3.10 layout written below cannot carry.
+                raise ValueError("unmarshallable object: 3.11+ code objects are not supported")
             if isinstance(x, Code3):
                 self.dispatch[Code3](self, x)
                 return
